@@ -212,7 +212,7 @@ func checkEncodeIdentity(c EncCase) error {
 		return harness.Violatef("c09/ill-formed", "encoder output ill formed: %s", p.Err)
 	}
 	for i, o := range p.Ops[1:] {
-		if o.C == nil || *o.C != c.Colors[i] {
+		if o.C == nil || *o.C != c.Colors[i].Norm() {
 			return harness.Violatef("c09/register-colour", "colour %v is spelled as bytes the specification reads as %v", c.Colors[i], o.C)
 		}
 	}
@@ -307,7 +307,8 @@ func TestEncodeIdentity(t *testing.T) {
 	lo, hi := harness.Range(1 << 24)
 	evals += sweepEncode(t, lo, hi, 1, func(x uint64) ops.ColorV { return ops.ColorV{T: 3, R: byte(x), G: byte(x >> 8), B: byte(x >> 16)} })
 	if harness.Shard() == 0 {
-		evals += sweepEncode(t, 0, 128, 1, func(x uint64) ops.ColorV { return ops.ColorV{T: 1 + uint8(x>>6), R: byte(x & 63)} })
+		// every uint8 argument of the two index constructors (indices are taken modulo 64)
+		evals += sweepEncode(t, 0, 512, 1, func(x uint64) ops.ColorV { return ops.ColorV{T: 1 + uint8(x>>8), R: byte(x)} })
 	}
 	subEnc.AddEnumerated(evals, evals-1)
 }
@@ -317,7 +318,11 @@ func TestEncodeIdentityRandom(t *testing.T) {
 		n := rapid.IntRange(1, 30).Draw(t, "n")
 		var c EncCase
 		for i := 0; i < n; i++ {
-			c.Colors = append(c.Colors, gen.Color(t, "c"))
+			cv := gen.Color(t, "c")
+			if (cv.T == 1 || cv.T == 2) && rapid.IntRange(0, 3).Draw(t, "wide") == 0 {
+				cv.R |= uint8(rapid.IntRange(1, 3).Draw(t, "hi")) << 6 // PaletteIndexColor(70) is index 6
+			}
+			c.Colors = append(c.Colors, cv)
 		}
 		subEnc.See(c, true, harness.HashJSON(c))
 		subEnc.Run(t, c)
@@ -394,6 +399,23 @@ func TestSuggestedPalettes(t *testing.T) {
 		c.Palette[5] = cv.RGBA()
 		n++
 		subPal.Run(t, c)
+	}
+	// all 64 entries the same colour, for every 1-byte colour and a few others
+	for x := 0; x < 132; x++ {
+		v := color.RGBA{0x12, 0x34, 0x56, 0x78}
+		if x < 128 {
+			v = spec.Color1(byte(x)).RGBA()
+		} else if x < 131 {
+			v = []color.RGBA{{0x11, 0x22, 0x33, 0x44}, {0x01, 0x02, 0x03, 0xff}, {0, 0, 0, 0x01}}[x-128]
+		}
+		for _, k := range []int{64, 63, 2} {
+			c := PalCase{Palette: ops.DefaultPalette()}
+			for i := 0; i < k; i++ {
+				c.Palette[i] = v
+			}
+			n++
+			subPal.Run(t, c)
+		}
 	}
 	for _, a := range []uint8{0, 0x40, 0x80, 0xc0} {
 		for _, r := range []uint8{0, 0x40, 0x80, 0xc0} {
